@@ -15,6 +15,14 @@ CHECKS = {
  "C08": ("exploration", "bounded-exhaustive limits x programs x EDBs", "For every program with intermediate rules x EDB x limit N in {1,2,3,5,|A|,|A|+1}: result is a duplicate-free subset of the unlimited answer of size min(N,|A|).", "unlimited answer must first agree with R1, else the case is left to C01", "2/C08", "E1"),
  "C28": ("exploration", "exhaustive enumeration of statement variants x roles", "Every Statement and MetaCommand variant (parsed and directly constructed) x every KgRole/Role against the harness's own permission classification (no wildcard arm: a new variant breaks the build).", "classification table R5 in harness/src/e5.rs is the oracle for 'changes persistent state'", "2/C28", "E5"),
  "C31": ("exploration", "exhaustive pairs/triples over a finite value pool", "All ordered pairs and triples of a 37-value pool covering every kind (adjacent floats, +-0, NaNs, both int widths, vectors) and 1-2 column tuples; plus consolidate_to_current on every 3-update multiset.", "the pool is representative, not all of the value space", "2/C31", "E5"),
+ "C11": ("model_checking", "explicit-state exploration of all bounded operation histories on the real StorageEngine vs a set model", "All operation sequences (shortlex) up to depth 4 (quick) / 5-6 (thorough) over {ins a, ins b, ins [a,b], ins [a,a], del a, del b, del [a,b], save, compact, restart}, each executed from a fresh real StorageEngine; served contents compared with a set model after every step and across every restart.", "set model R2 in harness/src/e2_store.rs; immediate durability, clean shutdown; tmpfs as the file system", "2/C11", "E2"),
+ "C12": ("model_checking", "exhaustive enumeration of value-kind pairs x flush patterns x restart on the real StorageEngine", "Every ordered pair of a 23-value pool covering all Value kinds as two rows / one batch of a schema-less relation x 4 flush patterns (thorough: column-wise mixes in arity 2); after a clean restart the relation must hold exactly the accepted tuples including Value variant (bitwise floats).", "harness-side structural equality; known findings listed in known_findings.jsonl", "2/C12", "E2"),
+ "C14": ("model_checking", "explicit-state exploration of bounded histories x storage configurations, differential against the maintenance-free twin", "All histories up to depth 3 (quick) / 4-5 (thorough) x buffer_size {1,2,3,10000} x max_wal_size {0,200,default} x durability {immediate,batched,async}; compared at every step and after a final restart with the same history stripped of save/compact under the plain configuration.", "clean shutdown only (save_all before drop in batched/async)", "2/C14", "E2"),
+ "C27": ("model_checking", "exhaustive enumeration of multi-line programs x identities through the real Handler vs permission model", "All programs of 1..2 (quick) / 3 (thorough) lines over a 17-symbol line alphabet x 32 identities through Handler::execute_program; any KG on which the caller lacks write permission must be unchanged in facts, rules and schemas.", "permission model R5 in harness/src/e2_handler.rs", "2/C27", "E2"),
+ "C29": ("model_checking", "exhaustive enumeration of programs naming the internal KG in every position through the real Handler", "Programs of 1..3 lines naming _internal in every position x editor/viewer identities x session bindings; _internal unchanged, never bound, never leaked, still listed.", "credential string search in replies is the read oracle", "2/C29", "E2"),
+ "C30": ("model_checking", "exhaustive enumeration of programs x injected syntax error at every position through the real Handler", "All valid programs of 1..2 (quick) / 3 (thorough) lines with one malformed line injected at every position: request rejected and state unchanged; uninjected programs equal line-by-line submission.", "injections absorbed by comments / lenient meta parser are not cases", "2/C30", "E2"),
+ "C32": ("model_checking", "explicit-state exploration of bounded write histories through the real Handler vs a set model", "All histories up to depth 4 (quick) / 5 (thorough) over 9 write statements (bulk with in-batch duplicates, absent deletes, conditional deletes, update); stored relation and reply counts must equal the set model's change after every step.", "set model in harness/src/e2_handler.rs", "2/C32", "E2"),
+ "C33": ("model_checking", "exhaustive enumeration of schemas x tuple batches x insert paths on the real Handler/StorageEngine", "Schemas over every declared type in arity 1-2 x inserts of 1-2 tuples from a literal pool through persistent and session paths, schema-first and data-first; conformance table in the harness is the oracle.", "ambiguous (schema type, value) pairs are not asserted", "2/C33", "E2"),
 }
 NA_DEFAULT = "check not built yet in this round (work in progress; DESIGN.md section 6 build order)"
 
@@ -39,6 +47,7 @@ m = {
  "engines": [
    {"name": "E1", "path": "harness/src/e1.rs", "serves_properties": ["C01","C02","C03","C06","C07","C08"], "kind_free_text": E1},
    {"name": "E5", "path": "harness/src/e5.rs", "serves_properties": ["C28","C31"], "kind_free_text": "E5 FIN: nested loops over complete finite domains"},
+   {"name": "E2", "path": "harness/src/e2_store.rs, harness/src/e2_handler.rs", "serves_properties": [k for k,v in CHECKS.items() if v[5]=="E2"], "kind_free_text": "E2 HIST: explicit-state exploration of all operation sequences up to a depth bound over a small alphabet, every sequence executed on real StorageEngine / Handler objects and compared with a reference model after every step"},
  ],
  "checks": [],
  "not_applicable": [],
